@@ -1,5 +1,5 @@
 CONSTANTS
-  Kinds = {"build", "exists", "effect"}
+  Kinds = {"build", "exists", "effect", "collectsort"}
 INIT Init
 NEXT Next
 INVARIANTS Confluent SiteKindsModelled
